@@ -11,9 +11,8 @@ let implode (l : char list) : string =
 
 let () =
   let entry = if Array.length Sys.argv > 1 then Sys.argv.(1) else "eval" in
-  let f = match entry with
-    | "eval" -> Model.run_case
-    | _ -> Model.run_case in
+  let _ = entry in
+  let f = Model.run_line in
   (try
      while true do
        let line = input_line stdin in
